@@ -748,6 +748,7 @@ func (c *c06) globEvents(fd *ast.FuncDecl, depth int, stack map[*ast.FuncDecl]bo
 		return evs[i].seq < evs[j].seq
 	})
 	var out []string
+	ownLock, ownDefer := false, false
 	for _, e := range evs {
 		switch {
 		case e.call != nil:
@@ -758,9 +759,18 @@ func (c *c06) globEvents(fd *ast.FuncDecl, depth int, stack map[*ast.FuncDecl]bo
 		default:
 			if e.what == "LOCK" {
 				locked = true
+				ownLock = true
+			}
+			if e.what == "DEFER-UNLOCK" && ownLock {
+				ownDefer = true
 			}
 			out = append(out, e.what)
 		}
+	}
+	// a helper that takes the lock itself and defers the unlock releases it when it returns: what the caller does
+	// afterwards is outside the critical section
+	if depth > 0 && ownLock && ownDefer {
+		out = append(out, "UNLOCK")
 	}
 	return out
 }
@@ -1414,8 +1424,8 @@ func init() {
 			// ordered events of Get with the bodies of the in-package helpers it calls spliced in at the call
 			// (extract / inline helper leaves the list unchanged)
 			evs := c.globEvents(fd, 0, map[*ast.FuncDecl]bool{}, false, lockedHelpers)
-			var unlocked, locked []string
-			hasLock, deferred, isLocked := false, false, false
+			var unlocked, locked, after []string
+			hasLock, deferred, isLocked, released := false, false, false, false
 			for _, e := range evs {
 				switch e {
 				case "LOCK":
@@ -1424,14 +1434,19 @@ func init() {
 					if isLocked {
 						deferred = true
 					}
+				case "UNLOCK":
+					isLocked, released = false, true
 				default:
-					if isLocked {
+					if released && !isLocked {
+						after = append(after, e)
+					} else if isLocked {
 						locked = append(locked, e)
 					} else {
 						unlocked = append(unlocked, e)
 					}
 				}
 			}
+			x.defStrList("globGetAfterUnlock", after)
 			x.defBool("globGetLocks", hasLock)
 			x.defBool("globGetUnlockDeferred", deferred)
 			x.defStrList("globGetUnlocked", unlocked)
